@@ -1,5 +1,8 @@
 import ChiaModel.Props.C04
 #print axioms ChiaModel.C04.limit_exact
+#print axioms ChiaModel.C04.native_limit_exact
+#print axioms ChiaModel.C04.legacy_limit_exact
+#print axioms ChiaModel.C04.runSpendbundle_limit_exact
 #print axioms ChiaModel.C04.cost_le_limit
 #print axioms ChiaModel.C04.cost_is_table_sum
 #print axioms ChiaModel.C04.table_values
